@@ -70,6 +70,10 @@ def c10_reference(n, arcs):
                 return f'directed_path_exists({N[x]!r},{N[y]!r}) wrong'
             if g.is_ancestor(N[x], N[y]) != (y in reach[x]):
                 return f'is_ancestor({N[x]!r},{N[y]!r}) wrong'
+            for coll in ([N[x]], [N[y], N[x]], {N[x]}):
+                if g.is_ancestor(N[x], coll) or g.is_descendant(N[x], coll):
+                    return (f'is_ancestor / is_descendant({N[x]!r}, {sorted(coll)!r}) is True although the collection contains the node itself '
+                            f'(a node of a DAG is not its own ancestor or descendant; get_descendants({N[x]!r}) = {sorted(g.get_descendants(N[x]))})')
             if g.is_descendant(N[x], N[y]) != (x in reach[y]):
                 return f'is_descendant({N[x]!r},{N[y]!r}) wrong'
             ca = {v for v in range(n) if x in reach[v] and y in reach[v]}
